@@ -111,6 +111,7 @@ type Result struct {
 	Switches    int              `json:"switches"`
 	TraceHash   string           `json:"trace_hash"`
 	SwitchSig   string           `json:"switch_sig"`
+	LockSig     string           `json:"lock_sig,omitempty"` // hash of the order in which callers acquired locks
 	Trace       []string         `json:"trace,omitempty"`
 	Choices     []int32          `json:"choices,omitempty"`
 	MapPay      []uint64         `json:"map_pay,omitempty"`
